@@ -15,7 +15,7 @@ pub fn def() -> PropDef {
         level: "exploration",
         profile,
         oracle: |_cfg| Box::new(C38::default()),
-        quick_runs: 30_000,
+        quick_runs: 120_000,
         thorough_runs: 800_000,
         panic_is_violation: false,
         rule: "run = seeded history with REUSED actor ids (forks that keep the actor, restarts from stale snapshots that keep the actor) followed by divergent commits; the conflicting branches reach each other before, after and between local commits, directly (apply_changes single/batch), through load_incremental streams, merge, sync sessions and the held-back queue; after every event on every touched replica: (actor, seq) pairs of the applied changes are unique and contiguous, heads = maximal applied changes, state = R1(applied set), periodically load(save()) is equal; right after a local commit claiming (a, n) the saved orphans hold no change of actor a with seq >= n; non-trivial = a change colliding with an applied (actor, seq) was offered to a replica; distinct by digest of the (offer path, outcome) sequence",
